@@ -35,6 +35,7 @@ class MinViol:
     def flush(self):
         for sub, (size, label, what, case, count) in sorted(self.best.items()):
             case = dict(case)
+            case["_sub"] = sub
             case["_size"] = size
             case["_label"] = label
             fp = "%s|%s" % (sub, label)
@@ -66,3 +67,12 @@ def finalize(acc, tier=None):
             acc.c["violations_subsumed"] += acc.viol[fp]["count"]
             del acc.viol[fp]
         acc.viol[keep]["cases"] = acc.viol[keep]["cases"][:1]
+
+
+def filter_replay(case, results):
+    """a replayed case answers for the sub-oracle it was recorded under (other laws that the same
+    input also breaks have their own minimal inputs and fingerprints)."""
+    sub = case.get("_sub") if isinstance(case, dict) else None
+    if sub is None:
+        return results
+    return [(fp, what) for fp, what in results if fp.rpartition("|")[0] == sub]
